@@ -86,7 +86,7 @@ def targets(ctx):
     @st.composite
     def strat(draw):
         case = dict(draw(base))
-        case["route"] = draw(st.sampled_from(["kwargs", "kwargs", "setattr", "lazy"]))
+        case["route"] = draw(st.sampled_from(["kwargs", "kwargs", "kwargs", "setattr", "setattr", "lazy", "lazy", "kwargs_multi"]))
         case["tz"] = draw(st.sampled_from([0, 0, 0, 330, -480, 765]))  # UTC offset of the aware datetimes put into Timestamp fields
         return case
 
